@@ -1,5 +1,6 @@
 import L21.Driver.Sexp
 import L21.Model.GdsFloat
+import L21.Model.Dep
 /-
 Line-protocol operations: `<op> <sexpr>*` ↦ result line.
 -/
@@ -22,10 +23,40 @@ def opFDec (args : List Sexp) : String :=
     | none => "bad-op"
   | _ => "bad-op"
 
+def natList? : Sexp → Option (List Nat)
+  | .list xs => xs.mapM nat?
+  | _ => none
+
+def graph? (args : List Sexp) : Option (List (List Nat) × List Nat) :=
+  match args with
+  | [.list rows, items] => do
+    let tbl ← rows.mapM natList?
+    let it ← natList? items
+    pure (tbl, it)
+  | _ => none
+
+/-- all five orderers are the same DFS; `dangling` = references outside the table are errors
+    (GDS struct names that do not exist), otherwise such nodes simply have no dependencies. -/
+def opDep (dangling : Bool) (args : List Sexp) : String :=
+  match graph? args with
+  | none => "bad-op"
+  | some (tbl, items) =>
+    let n := tbl.length
+    let big := (tbl.flatten ++ items).foldl max 0 + 1
+    if dangling && (tbl.any (fun r => r.any (fun d => d ≥ n)) || items.any (fun i => i ≥ n)) then "err"
+    else match Dep.order (Dep.adjOf tbl) (max n big + 1) items with
+      | .ok st => s!"ok {Sexp.list (st.map ofNat)}"
+      | .cycle => "err"
+      | .fuel => "fuel"
+
 def dispatch (op : String) (args : List Sexp) : String :=
   match op with
   | "f.enc" => opFEnc args
   | "f.dec" => opFDec args
+  | "dep.generic" => opDep false args
+  | "dep.raw" => opDep true args
+  | "dep.tetris" => opDep true args
+  | "dep.gds" => opDep true args
   | _ => "bad-op"
 
 def stepLine (line : String) : String :=
